@@ -35,9 +35,23 @@ def histories(r, n_hist):
         objs = [{e: (float(Fraction(sc)), list(ps)) for e, sc, ps in pil} for pil in inputs]
         seq = [rng.randrange(3) for _ in range(rng.randint(3, 6))]
         trace = []
-        for k in seq:
+        # in two histories out of three one call (not the last one) is ABORTED: an interruption (KeyboardInterrupt, as from Ctrl-C or a
+        # signal-based time limit) arrives while the target-decoy competition is walking over the groups, and the caller carries on
+        abort_at = rng.randrange(len(seq) - 1) if h % 3 != 2 else None
+        for pos, k in enumerate(seq):
             seed = 1
             ka = bool(k % 2)
+            if pos == abort_at:
+                aborted = abort_call(mc, inputs[k], ka, seed, objs[k], rng.randint(1, 6))
+                trace.append({"input": k, "aborted": aborted})
+                continue
+            if pos and rng.random() < 0.25 and hasattr(mc.picked_strategy, "seen_proteins"):
+                # the state an aborted call may leave, put there directly: some proteins of this input (and their decoy/target twins,
+                # which clean to the same name) sit in the seen set when the call starts
+                names = sorted({p for _, _, ps in inputs[k] for p in ps})
+                left = set(rng.sample(names, rng.randint(1, len(names))))
+                mc.picked_strategy.seen_proteins = {p.replace("REV__", "") for p in left} | {";".join(sorted(left))}
+                trace.append({"seen_set_left_behind": sorted(mc.picked_strategy.seen_proteins)})
             reused = run_pipeline(mc, inputs[k], ka, gens.fr(0.01), gens.fr(0.01), seed, d=objs[k])
             fresh = run_pipeline(methods.parse_method_toml(m, False), inputs[k], ka, gens.fr(0.01), gens.fr(0.01), seed)
             n_calls += 1
@@ -46,12 +60,34 @@ def histories(r, n_hist):
             trace.append({"input": k, "equal": a == b})
             if a != b:
                 r.violation("property-failure",
-                            {"suite": "call_history", "method": m, "inputs": inputs, "sequence": seq, "trace": trace,
+                            {"suite": "call_history", "method": m, "inputs": inputs, "sequence": seq, "abort_at": abort_at, "trace": trace,
                              "reused_result": a, "fresh_result": b},
                             found_input=True,
                             what=f"call #{len(trace)} on a re-used {m} configuration differs from a fresh configuration")
                 return n_calls
     return n_calls
+
+
+def abort_call(mc, pil, ka, seed, d, nth):
+    """a call that is interrupted when the competition loop looks at its [nth] group (helpers.is_contaminant is what the loop
+    calls once per candidate group); True when the interruption happened"""
+    from picked_group_fdr import helpers
+    real = helpers.is_contaminant
+    seen = []
+
+    def interrupting(protein_group):
+        seen.append(1)
+        if len(seen) == nth:
+            raise KeyboardInterrupt
+        return real(protein_group)
+    helpers.is_contaminant = interrupting
+    try:
+        run_pipeline(mc, pil, ka, gens.fr(0.01), gens.fr(0.01), seed, d=d)
+        return False
+    except KeyboardInterrupt:
+        return True
+    finally:
+        helpers.is_contaminant = real
 
 
 CLI_SCRIPT = r'''
